@@ -364,6 +364,34 @@ func c05CheckOne(c *core.Ctx, text string, walks int, useMatch bool) {
 			}
 		}
 	}
+	// Requests longer than the URL length cap: whatever part of the URL the rule
+	// is matched against (the request's own URL field), a compiled pattern that
+	// accepts it must not be vetoed by the pre-check.
+	if useMatch && matcher != nil && len(candidates) > 0 {
+		for i := 0; i < 3; i++ {
+			u := candidates[c.Rng.Intn(len(candidates))]
+			if strings.ContainsAny(u, "\n") || !matcher.MatchString(u) {
+				continue
+			}
+			pad := strings.Repeat("p", 4000+c.Rng.Intn(300))
+			long := []string{"http://pad.example/" + pad + "/" + u, u + "/" + pad, "http://pad.example/?" + pad + "=" + u + "&" + pad}[c.Rng.Intn(3)]
+			req := rules.NewRequest(long, "", rules.TypeOther)
+			if !matcher.MatchString(req.URL) {
+				continue
+			}
+			c.Eval(1)
+			c.Event("long_url_witnesses", 1)
+			w2 := w
+			w2.URL = long
+			var got bool
+			if !c.Guard("NetworkRule.Match", nil, w2, func() { got = r.Match(req) }) && !got {
+				c.Violation("match-false-although-pattern-accepts:long-url", nil, w2,
+					"modifier-free rule %q: compiled pattern accepts the URL field of a %d-byte request (%d bytes kept) but Match is false (shortcut %q)", text, len(long), len(req.URL), r.Shortcut)
+
+				break
+			}
+		}
+	}
 	c.Event("accepted_witnesses", int64(accepted))
 	if r.Shortcut != "" && accepted > 0 {
 		c.NonTrivial(core.Hash64(text))
